@@ -2,7 +2,7 @@
 """Data of ural/facebook.py -> Gen/C19FacebookTables.lean (property C19, part `facebook`).
 
 * the six regexes of the module (`FACEBOOK_ID_RE`, `FACEBOOK_FULL_ID_RE`, `FACEBOOK_DOMAIN_RE`,
-  `MOBILE_REPLACE_RE`, `URL_EXTRACT_RE`) and `MISTAKES_RE` of ural/utils.py as `Py.Re` terms
+  `MOBILE_REPLACE_RE`, `URL_EXTRACT_RE`) and `MISTAKES_RE`, `SLASH_SQUEEZE_RE` of ural/utils.py as `Py.Re` terms
   (through `gen_tables.regex.PatternFile`, i.e. CPython's own parser and the running engine's
   character classes) together with their pattern strings and flags;
 * `BASE_FACEBOOK_URL`;
@@ -79,7 +79,7 @@ def gen_c19_facebook():
     utils = importlib.import_module("ural.utils")
     pf = PatternFile(
         "Ural.Gen.C19Facebook",
-        "data of ural/facebook.py (regexes, base url, observed url templates) and MISTAKES_RE of "
+        "data of ural/facebook.py (regexes, base url, observed url templates) and MISTAKES_RE, SLASH_SQUEEZE_RE of "
         "ural/utils.py, as found in the imported modules on this run",
     )
     problems = []
@@ -92,14 +92,15 @@ def gen_c19_facebook():
             pf.add(name, rx)
         except Untranslatable as e:
             problems.append(str(e))
-    rx = getattr(utils, "MISTAKES_RE", None)
-    if rx is None:
-        problems.append("ural.utils.MISTAKES_RE is missing")
-    else:
-        try:
-            pf.add("MISTAKES_RE", rx)
-        except Untranslatable as e:
-            problems.append(str(e))
+    for name in ("MISTAKES_RE", "SLASH_SQUEEZE_RE"):
+        rx = getattr(utils, name, None)
+        if rx is None:
+            problems.append("ural.utils.%s is missing" % name)
+        else:
+            try:
+                pf.add(name, rx)
+            except Untranslatable as e:
+                problems.append(str(e))
     if problems:
         raise Untranslatable("; ".join(problems))
 
